@@ -179,8 +179,10 @@ def check_parse(ctx, case, workdir):
     tail = bytes.fromhex(case.get("tail", ""))
     path = os.path.join(workdir, "packets.bin")
     xpath = os.path.join(workdir, "definition.xml")
+    skip = case.get("skip", 0)
     with open(path, "wb") as f:
-        f.write(b"".join(pkts) + tail)
+        # `skip` record-header bytes before every packet, stripped by --skip-header-bytes
+        f.write(b"".join(bytes([0x1A, 0xCF, 0xFC, 0x1D, 0, 0, 0, i & 0xFF][:skip]) + p for i, p in enumerate(pkts)) + tail)
     with open(xpath, "w") as f:
         f.write(xtce_text(case["extra"]))
     size = os.path.getsize(path)
@@ -193,10 +195,14 @@ def check_parse(ctx, case, workdir):
         ctx.cls("parse index " + ("none" if i is None else "valid" if i < n else "n" if i == n else "n+1"))
         if i is None or i >= n - 1 or n < 10:
             ctx.nontrivial(("p", case["packets"], i))
-        args = [path, xpath] + ([] if i is None else ["--packet", str(i)]) + ["--max-items", "100"]
+        args = [path, xpath] + ([] if i is None else ["--packet", str(i)]) + ["--max-items", "100"] + \
+            (["--skip-header-bytes", str(skip)] if skip else [])
+        if skip:
+            ctx.cls("parse with --skip-header-bytes")
         gopts = case.get("gopts", [])
         res, tripped = invoke("parse", args, size, gopts)
-        what = f"spp {' '.join(gopts)} parse --packet {i} on {n} packets" + (f" + {len(tail)} trailing bytes" if tail else "")
+        what = f"spp {' '.join(gopts)} parse --packet {i}" + (f" --skip-header-bytes {skip}" if skip else "") + \
+            f" on {n} packets" + (f" + {len(tail)} trailing bytes" if tail else "")
         sub = dict(case, indices=[i])
         if tripped:
             return ctx.fail("no-termination", f"{what}: the framer yields more packets than the file can hold", sub)
@@ -258,7 +264,7 @@ def gen_case(draw, n, with_tail=False):
             src = draw(st.integers(0, n - 1))
             dst = draw(st.integers(0, n - 1))
             pkts[dst] = dict(pkts[src])
-    case = {"packets": pkts, "extra": extra,
+    case = {"packets": pkts, "extra": extra, "skip": draw(st.sampled_from([0, 0, 0, 4, 8, 1, 6])),
             "gopts": draw(st.sampled_from([[], [], ["-v"], ["-q"], ["--log-level", "DEBUG"], ["--log-level", "WARNING"]]))}
     if with_tail:
         full = pk.mkpacket(1, b"\x00" * 9)
